@@ -581,6 +581,9 @@ class Client:
         :param authmech: prefered authenticate mechanism
         :rtype: boolean
         """
+        self.authenticated = False
+        self.__read_buffer = b""
+        self.__capabilities = {}
         try:
             self.sock = socket.create_connection((self.srvaddr, self.srvport))
             self.sock.settimeout(Client.read_timeout)
